@@ -244,3 +244,50 @@ Print Assumptions C13_stack_over_throttled.
 Print Assumptions C13_stack_open_throttled.
 Print Assumptions C13_stack_throttled_read_full.
 Print Assumptions C13_example_stack_throttled.
+(* ====================================================================================
+   Compressed archives: the fail-safe decompression reader (model theories/CompFailSafe.v of
+   CompressionLayerFailSafeReader; brotli's streaming decoder enters as an abstract step
+   function under the explicit DecoderLaws of theories/CompFailSafeProofs.v, every one of
+   which the harness job c02-comp observes on the real decoder).  `run D fin bs w` packs a
+   decoder satisfying the laws, an inner source delivering the available bytes w in order
+   with any short reads, the client's read sizes (> 0) and fuel (2|w|+2 passes per read,
+   |plaintext|+1 reads); run_result is CompFailSafe.fs_read_all: everything delivered until
+   the first Ok(0) / error, and how it ended.  bs: the compressed blocks (c_i, p_i); tail:
+   the bytes that follow them (the SizesInfo footer), of which a fresh decoder makes nothing.
+   ==================================================================================== *)
+From MLA Require Import CompFailSafe CompFailSafeProofs CompFailSafeStep CompFailSafeThms CompFailSafeToy.
+
+(* two runs over the same available bytes deliver the same total output: r1 and r2 may differ
+   in the inner source (any read schedule: Stream.Throttled with any schedule and
+   Stream.Cursor are such sources, throttled_src / cursor_src), in the client's read sizes and
+   in the decoder (any two step functions satisfying the laws for the same D: any emission
+   schedule) *)
+Theorem C13_fs_comp_sched_indep :
+  forall BLOCK FSBUF : N, 0 < FSBUF -> BLOCK < 2 ^ 32 ->
+  forall (D : bytes -> bytes) (fin : bytes -> bool) (tail : bytes), dead D fin tail ->
+  forall bs : list (bytes * bytes), Forall (good_block BLOCK D fin) bs ->
+  forall (w : bytes) (r1 r2 : run D fin bs w), prefix w (wire_of tail bs) ->
+    fst (run_result BLOCK FSBUF D fin bs r1) = fst (run_result BLOCK FSBUF D fin bs r2).
+Proof. exact fs_comp_sched_indep. Qed.
+
+Theorem C13_fs_comp_sources :
+  forall w, SrcRefines (Cursor w) w (fun s p => s = p /\ p <= len w) /\
+            SrcRefines (Throttled w) w (fun s p => fst s = p /\ p <= len w).
+Proof. intros w. split; [apply cursor_src | apply throttled_src]. Qed.
+
+(* non-vacuity (toy codec, BLOCK = 8, FSBUF = 4): a cut inside block 2 read from memory with
+   reads of 7, and one byte at a time with reads of 1 *)
+Example C13_fs_comp_example :
+  fst (run_result 8 4 tD tfin fsx_bs (fsx_run (takeN 21 fsx_wire) [] 6))
+    = fst (run_result 8 4 tD tfin fsx_bs (fsx_run (takeN 21 fsx_wire) [1] 0)) /\
+  run_result 8 4 tD tfin fsx_bs (fsx_run (takeN 21 fsx_wire) [1; 3; 2] 0)
+    = ([1; 2; 3; 4; 5; 6; 7; 8; 9; 10; 11; 12; 13; 14; 15; 16; 17; 18], Err EUnexpectedEof).
+Proof.
+  split; [|vm_compute; reflexivity].
+  apply (C13_fs_comp_sched_indep 8 4 ltac:(lia) ltac:(lia) tD tfin fsx_tail fsx_dead fsx_bs fsx_good).
+  apply prefix_takeN.
+Qed.
+
+Print Assumptions C13_fs_comp_sched_indep.
+Print Assumptions C13_fs_comp_sources.
+Print Assumptions C13_fs_comp_example.
